@@ -20,8 +20,8 @@ void rejectedExtraction(const G &g, const Model &m, unsigned long long mask, Ste
         std::unordered_set<VertexIndex> S;
         if (order == 0)
             S.insert((VertexIndex)(m.n + (mask % 3)));
-        for (unsigned v = 0; v < m.n && v < 64; ++v)
-            if (((mask >> v) & 1) || ((mask >> (v + 7)) & 1))
+        for (unsigned v = 0; v < m.n; ++v)
+            if (((mask >> (v % 64)) & 1) || ((mask >> ((v + 7) % 64)) & 1))
                 S.insert(v);
         if (order == 1)
             S.insert((VertexIndex)(m.n + (mask % 3)));
@@ -38,7 +38,7 @@ void rejectedExtraction(const G &g, const Model &m, unsigned long long mask, Ste
 }
 
 template <class G>
-std::string checkSubset(const G &g, const Model &m, unsigned long long mask, std::string &observer, StepFacts &facts) {
+std::string checkSubset(const G &g, const Model &m, unsigned long long mask, std::string &observer, StepFacts &facts, const std::vector<char> *members = nullptr) {
     typedef GT<G> T;
     typedef typename T::Label L;
     size_t n = m.n;
@@ -46,11 +46,19 @@ std::string checkSubset(const G &g, const Model &m, unsigned long long mask, std
         rejectedExtraction(g, m, (mask * 2654435761ULL) >> 7, facts);
     std::unordered_set<VertexIndex> S;
     std::vector<char> in(n, 0);
-    for (unsigned v = 0; v < n && v < 64; ++v)
-        if ((mask >> v) & 1) {
-            S.insert(v);
-            in[v] = 1;
-        }
+    if (members) {
+        // explicit member list (graphs with more than 64 vertices); inserted from the top so that the iteration order varies
+        for (unsigned v = (unsigned)n; v-- > 0;)
+            if ((*members)[v]) {
+                S.insert(v);
+                in[v] = 1;
+            }
+    } else
+        for (unsigned v = 0; v < n && v < 64; ++v)
+            if ((mask >> v) & 1) {
+                S.insert(v);
+                in[v] = 1;
+            }
     size_t inside = 0, crossing = 0;
     for (auto &p : m.e) {
         bool a = in[p.first.first], b = in[p.first.second];
@@ -59,7 +67,7 @@ std::string checkSubset(const G &g, const Model &m, unsigned long long mask, std
         else if (a || b)
             ++crossing;
     }
-    std::string setText = "S=" + std::to_string(mask);
+    std::string setText = members ? "S=range#" + std::to_string(mask) : "S=" + std::to_string(mask);
     // ---- getSubgraph
     G sub = algorithms::getSubgraph(g, S);
     if (sub.getSize() != n) {
@@ -176,6 +184,17 @@ void run(const Case &c, verif_result *out) {
                     r = checkSubset(g, m, mk, observer, facts);
                     ++subsets;
                 }
+                // `op sr a len step`: the members a, a+step, ... (len of them, modulo n): subsets of graphs with more than 64 vertices
+                for (const Op &op : c.ops)
+                    if (op.kind == "sr" && r.empty()) {
+                        std::vector<char> mem(n, 0);
+                        unsigned long long a = op.u(0), len = op.u(1), step = std::max<unsigned long long>(1, op.u(2));
+                        for (unsigned long long k = 0; k < len && k < n; ++k)
+                            mem[(a + k * step) % n] = 1;
+                        r = checkSubset(g, m, a * 1000003ULL + len * 101 + step, observer, facts, &mem);
+                        ++subsets;
+                        facts.tag("range_subset");
+                    }
             }
         }
         if (r.empty()) {
